@@ -272,6 +272,10 @@ pub fn catalogue() -> Vec<Prog> {
     // labels that only LOOK like a register or a literal (an underscore makes them identifiers)
     v.push(p("oddlabels", false, b"", vec![pc_lab("ld", 0, "r1_loop"), pc_lab("ld", 1, "R7_SAVE"), pc_lab("lea", 2, "x30_05"), add_i(3, 3, 1).lab("r0_"), halt(),
                                           fill(0x11).lab("r1_loop"), fill(0x22).lab("R7_SAVE"), fill(0x33).lab("x30_05"), fill(0x44).lab("b_101"), fill(0x55).lab("o_7")]));
+    // a string that starts in the last word of memory and goes on at x0000: PUTS and PUTSP walk addresses modulo 2^16
+    v.push(p("putswrap", false, b"", vec![and_i(1, 1, 0), pc_lab("ld", 0, "cha"), base_off("str", 0, 1, -1), pc_lab("ld", 0, "chb"), base_off("str", 0, 1, 0),
+                                         pc_lab("ld", 0, "chc"), base_off("str", 0, 1, 1), add_i(0, 1, -1), plain("puts"), plain("putsp"), halt(),
+                                         fill(0x4241).lab("cha"), fill(0x0043).lab("chb"), fill(0x4544).lab("chc")]));
     v.push(p("wrapld", false, b"", vec![orig(0x0000), pc_lit("ld", 0, -3), pc_lit("st", 0, -4), pc_lit("lea", 1, -2), base_off("ldr", 2, 1, -1), halt()]));
     v.push(p("data", false, b"", vec![
         pc_lab("ld", 0, "a"), pc_lab("ldi", 1, "pa"), pc_lab("lea", 2, "a"), base_off("ldr", 3, 2, 1), base_off("str", 3, 2, 2),
